@@ -1,0 +1,59 @@
+//go:build verif
+
+// Contracts for contract-based deductive verification (see /verif/DESIGN.md).
+// Comment-only file: it contributes no code to any build.
+
+package wire
+
+// sentinel errors are initialised once with errors.New and never reassigned
+//@ global errors.ErrConnectionClosed != nil
+
+// ---------------------------------------------------------------- C06: request ids
+//@ func (*IDGenerator).Next
+//@   props C06
+//@   nopanic
+//@   modifies g.currentValue
+//@   ensures result == old(g.currentValue)
+//@   ensures g.currentValue == (old(g.currentValue) + 2) % 4294967296
+//@   ensures imp(old(g.currentValue) % 2 == 0, result % 2 == 0 && g.currentValue % 2 == 0)
+
+//@ func newRequestIDGeneratorForClient
+//@   props C06
+//@   nopanic
+//@   ensures result.currentValue == 0
+
+// two ids drawn from one generator differ unless 2^31 draws lie between them
+//@ lemma requestIDsDistinct
+//@   props C06
+//@   forall g *IDGenerator
+//@   requires g != nil
+//@   let a = g.Next()
+//@   let b = g.Next()
+//@   ensures a != b && b == (a + 2) % 4294967296
+
+// ---------------------------------------------------------------- C06: reply routing
+// Every reply channel gets a ghost key when it is made (the id of the request it waits
+// for). Monitor invariant of ClientConn.mu: the table maps id -> channel keyed id.
+// Channel invariant: only a message bearing the key is ever sent on a keyed channel.
+
+//@ ghost func chkey(chan message.Request) uint32
+//@ ghost func keyed(chan message.Request) bool
+
+//@ chaninv[C06] message.Request: imp(keyed(ch), reqid(v) == chkey(ch)) && v != nil
+//@ chanopen[C06] message.Request: keyed(ch)
+//@ lockinv[C06] ClientConn.mu: self.replyCh != nil && forall(id, uint32, imp(has(self.replyCh, id), keyed(self.replyCh[id]) && chkey(self.replyCh[id]) == id))
+//@ typeassume ClientConn: !keyed(self.msgRequestCh)
+
+//@ func (*ClientConn).sendRequest
+//@   props C06
+//@   nopanic
+//@   requires req != nil && c.transport != nil && c.ctx != nil && ctx != nil
+//@   makechan 1 assume keyed(ch) && chkey(ch) == reqid(req)
+//@   ensures imp(result1 == nil, result0 != nil && reqid(result0) == reqid(req))
+
+//@ func (*ClientConn).readRequestLoop
+//@   props C06
+//@   nopanic
+
+//@ func (*ClientConn).readReliableLoop
+//@   props C06
